@@ -329,6 +329,7 @@ class NrtMain(metaclass=Process):
         cls.main_tt = stm._MainTimeThread()
         cls.main_tt._m_seconds = 0.0
         cls.current_tt = cls.main_tt
+        cls._in_awake_call = False
         cls._clock_scheduler = clk.ClockScheduler()
         cls._osc_interface = osci.OscNrtInterface()
         cls._osc_interface.init()
